@@ -128,6 +128,30 @@ def gen_fn(rng, desc, args, structural, nsteps, want_obj):
   return fn, d
 
 
+def gen_struct_edit(rng, desc, args):
+  """a function with exactly one edit that changes the structure of the bound graph (or which Variable an attribute holds)"""
+  ps = paths_of(desc, args)
+  nodes = [(p, i) for p, k, i in ps if k == 'node']
+  if not nodes:
+    return None
+  p, i = rng.choice(nodes)
+  attrs = desc['objs'][i]['attrs']
+  varattrs = [(k, v) for k, v in attrs if v[0] == 'ref' and desc['objs'][v[1]]['kind'] == 'var']
+  free = [k for k in GP.ATTRS if k not in [a for a, _ in attrs]]
+  r = rng.random()
+  if r < 0.6 and varattrs:
+    k, v = rng.choice(varattrs)      # re-bind to a fresh Variable of the same type and metadata: the graphdef differs only in which object it is
+    o = desc['objs'][v[1]]
+    m = ['setattr', p, k, ['newvar', o['vty'], o['meta'], ['const', 7]]]
+  elif r < 0.8 and free:
+    m = ['setattr', p, rng.choice(free), rng.choice([['static', 3], ['newnode', 'Box'], ['newvar', 'Param', 0, ['const', 1]]])]
+  elif attrs:
+    m = ['delattr', p, rng.choice(attrs)[0]]
+  else:
+    return None
+  return {'body': [m], 'ret': ['const', 1], 'obj': None}
+
+
 def cpath(p):
   return clist([cN(p[0])] + [GP.ckey(k) for k in p[1:]])
 
@@ -183,6 +207,12 @@ def run(chk):
     fns, calls = [], []
     d = desc
     for c in range(ncalls):
+      if kind == 'cpartial' and rng.random() < 0.5:
+        f = gen_struct_edit(rng, d, args)
+        if f is not None:
+          fns.append(f)
+          calls.append({'fn': len(fns) - 1, 'kind': kind, 'k': 1, 'must_raise': True})
+          break
       if fns and rng.random() < 0.5:
         fi = rng.randrange(len(fns))     # the same transformed function again (cache hit or, after structure changes, miss)
       else:
@@ -193,7 +223,7 @@ def run(chk):
       d = copy.deepcopy(d)
       for m in fns[fi]['body']:
         sim_step(d, args, m)
-      call = {'fn': fi, 'kind': kind, 'k': rng.randint(1, 3) if kind in ('fori', 'while') else 1}
+      call = {'fn': fi, 'kind': kind, 'k': rng.randint(1, 3) if kind in ('fori', 'while') else 1, 'nkw': rng.choice([0, 0, 1, len(args)]) if kind == 'jit' else 0}
       if kind in ('cond', 'switch'):
         call['other'], _ = gen_fn(rng, d, args, False, rng.randint(0, 2), False)
         call['pred'] = rng.random() < 0.5
@@ -224,6 +254,13 @@ def run(chk):
       stat['calls'] += 1
       stat['by_kind'][call['kind']] = stat['by_kind'].get(call['kind'], 0) + 1
       impl, eager = res['impl'], res['eager']
+      if call.get('must_raise'):
+        # cached_partial: the structure of a bound graph must be the same after the call, otherwise an error -- never a silent partial update
+        if 'err' not in impl:
+          chk.violation('oracle', 'nnx.cached_partial accepted a function that changes the structure of a bound graph (or re-binds an attribute to another Variable)',
+                        {'case': c, 'call': call, 'fn': c['fns'][call['fn']], 'impl': impl})
+        hist.append((call, None))
+        break
       if ('err' in impl) != ('err' in eager):
         # a failing function leaves the caller's objects half-updated when eager and untouched under a transform: only compare that both fail
         chk.violation('oracle', 'a function that %s eagerly %s under nnx.%s' % ('fails' if 'err' in eager else 'works', 'works' if 'err' in eager else 'fails', call['kind']),
@@ -267,7 +304,7 @@ Fixpoint replay (h0 h : heap) (args : list value) (steps : list (fn * nat * bool
       let c := run_ctx st f times h args in
       let oe := match e with Some res => observe h0 args res | None => None end in
       let oc := match c with Some res => observe h0 args res | None => None end in
-      obs_beq oe expected && obs_beq oc expected &&
+      (match expected with Some _ => obs_beq oe expected && obs_beq oc expected | None => obs_beq oc None end) &&
       match c with Some (h', _, _) => replay h0 h' args r | None => true end
   end.
 Definition chk (c : heap * list value * list (fn * nat * bool * option obs_t)) : bool :=
